@@ -156,6 +156,11 @@ def parse_message(
     if not isinstance(data, dict):
         raise ValueError("Message must be a dict or list")
 
+    # A message is a request/notification (method) or a response (result or error);
+    # an object with none of these is not a JSON-RPC message at all
+    if not any(key in data for key in ("method", "result", "error")):
+        raise ValueError("Invalid JSON-RPC message structure")
+
     # For backward compatibility, try to parse with JSONRPCMessage first
     try:
         return JSONRPCMessage.model_validate(data)  # type: ignore[attr-defined]
